@@ -96,3 +96,28 @@ Print Assumptions C02_mixed_base_div.
 Theorem C02_mixed_base_pow : forall b e n : R, (0 < b -> Rpower (Rpower b e) n = Rpower b (e * n))%R.
 Proof. exact mixed_pow_exact. Qed.
 Print Assumptions C02_mixed_base_pow.
+
+(* ---- Dimension.define: a new fundamental dimension re-keys every known dimension (Model/DimDefine.v) ----
+   The intern table as the list of its keys (exponent tuples) in dictionary order; an object is its position.  define appends the new
+   dimension and gives EVERY key -- the new one included -- one more slot.  The per-run obligation Gen_rekey checks that the table
+   exported before a definition, pushed through [define], is the table exported after it. *)
+From Measured Require Import Model.DimDefine Proofs.DimDefineFacts.
+
+(* the table stays duplicate-free and uniformly shaped, whatever it held (all derived dimensions of the shipped modules included) *)
+Theorem C02_define_keeps_table_canonical : forall s, DInv s -> fundamental s <> O -> DInv (define s).
+Proof. exact define_inv. Qed.
+Print Assumptions C02_define_keeps_table_canonical.
+
+(* every dimension object keeps its identity: found under k before, it is found under the extended key at the same place *)
+Theorem C02_define_keeps_objects : forall s k i, index_of k (dtable s) = Some i -> index_of (ext k) (dtable (define s)) = Some i.
+Proof. exact define_keeps_objects. Qed.
+Print Assumptions C02_define_keeps_objects.
+
+(* and the group operations commute with the re-keying, so every law that held before holds after, on the same objects *)
+Theorem C02_define_commutes_with_arithmetic : forall a b n, length a = length b ->
+  dmul (ext a) (ext b) = ext (dmul a b) /\ ddiv (ext a) (ext b) = ext (ddiv a b) /\ dpow (ext a) n = ext (dpow a n).
+Proof. intros a b n H. split; [apply dmul_ext, H|]. split; [apply ddiv_ext, H|apply dpow_ext]. Qed.
+Print Assumptions C02_define_commutes_with_arithmetic.
+
+Example C02_define_nonvacuous : DInv (defines 9 dinit) /\ dtable (defines 3 dinit) = [[0; 0; 0; 0]%Z; [0; 1; 0; 0]%Z; [0; 0; 1; 0]%Z].
+Proof. split; [apply (defines_inv 8)|vm_compute; reflexivity]. Qed.
